@@ -1,0 +1,81 @@
+//go:build verif
+
+// Package verifhook provides named schedule points for external verification
+// harnesses. With the "verif" build tag, a harness can install a function per
+// point (yield, gate, count) and read hit counters.
+package verifhook
+
+import (
+	"sync"
+	"sync/atomic"
+)
+
+var (
+	mx    sync.RWMutex
+	fns   = map[string]func(){}
+	hits  = map[string]*atomic.Uint64{}
+	armed atomic.Bool
+)
+
+// Set installs fn for the named point (nil removes it).
+func Set(name string, fn func()) {
+	mx.Lock()
+	defer mx.Unlock()
+	if fn == nil {
+		delete(fns, name)
+	} else {
+		fns[name] = fn
+	}
+	if _, ok := hits[name]; !ok {
+		hits[name] = &atomic.Uint64{}
+	}
+	armed.Store(true)
+}
+
+// Count enables hit counting for the named point without installing a func.
+func Count(name string) {
+	mx.Lock()
+	defer mx.Unlock()
+	if _, ok := hits[name]; !ok {
+		hits[name] = &atomic.Uint64{}
+	}
+	armed.Store(true)
+}
+
+// Clear removes all installed functions and resets all counters.
+func Clear() {
+	mx.Lock()
+	defer mx.Unlock()
+	fns = map[string]func(){}
+	hits = map[string]*atomic.Uint64{}
+	armed.Store(false)
+}
+
+// Hits returns a copy of the hit counters.
+func Hits() map[string]uint64 {
+	mx.RLock()
+	defer mx.RUnlock()
+	ret := make(map[string]uint64, len(hits))
+	for k, v := range hits {
+		ret[k] = v.Load()
+	}
+	return ret
+}
+
+// Point calls the function installed for name, if any. The registry lock is
+// not held while the function runs.
+func Point(name string) {
+	if !armed.Load() {
+		return
+	}
+	mx.RLock()
+	fn := fns[name]
+	c := hits[name]
+	mx.RUnlock()
+	if c != nil {
+		c.Add(1)
+	}
+	if fn != nil {
+		fn()
+	}
+}
